@@ -16,10 +16,14 @@ CLAIMS = {
     "C01": {
         "text": "Theorem C01_partition (Lean, by induction over the operation list and the tree height, for every valid routing/"
                 "split/accept policy): after any well-formed history the reported clusters are a permutation of 0..numFitted-1; "
-                "count, no-duplicate and membership corollaries. Tied to /repo by comparing model and real estimator after every "
-                "operation of generated histories.",
-        "note": TB + "Hypotheses: first row of each fit and refine data have F features (other rows may be malformed), branching factors >= 2, "
-                "no explicit reinsert labels. Not modelled: sparse input, global clustering, width change between fits with equal byte length.",
+                "count, no-duplicate and membership corollaries. C01_labels / C01_labels_generic: with explicit labels on any fit "
+                "(fit(X, reinsert_indices=...): arbitrary numbers, duplicates, truncating zip, malformed rows) the reported ids are, "
+                "with multiplicity, exactly the labels of the rows inserted since the last reset (labelsOf, computed through the "
+                "model's own step function); C01_labels_count, _nodup, _mem, _implicit (the implicit case is the special case), _fit, _reset. "
+                "Tied to /repo by comparing model and real estimator after every operation of generated histories.",
+        "note": TB + "Hypotheses: first row of each fit and refine data have F features (other rows may be malformed: the fit fails there and "
+                "keeps the rows before it), branching factors >= 2. Not modelled: sparse input, global clustering, width change between "
+                "fits with equal byte length.",
         "technique": "Lean 4 theorem over executable model + differential correspondence",
     },
     "C02": {
